@@ -373,7 +373,8 @@ func (p *c11) Run(c *verifsim.Chooser, st *Stats, render bool) *Outcome {
 				ev.ctx.OpBoundary(t)
 				op.Call = c11NextSeq()
 				obj := pl.objs[k]
-				r := doRun(ev.e, obj)
+				var r Result
+				ev.ctx.Do(func() { r = doRun(ev.e, obj) })
 				op.Return = c11NextSeq()
 				verifsim.Yield(verifsim.YOpEnd, k)
 				op.Verdict, op.Failed, op.Err, op.Panicked = r.Truth, r.Failed, r.Err, r.Escaped != nil
